@@ -83,6 +83,12 @@ THEOREMS = [NS + t for t in (
     "C11_trav_meth_history",
     "C11_trav_untouched_once",
     "C11_trav_never_twice",
+    "C11_treeShape_static_dynamic",
+    "C11_noStale_current",
+    "C11_trav_nodup_static",
+    "C11_trav_static_admissible",
+    "C11_trav_untouched_once_static",
+    "C11_trav_never_twice_static",
 )]
 ASSUMPTIONS = [
     "CPython generators are modelled as explicit cursors (suspended at the yield; the loop reads box.next / box.prev "
